@@ -3,10 +3,15 @@ import AsyncsshModel.Model.Socks
 import AsyncsshModel.Gen.C20
 /- Line-protocol driver for the C20 correspondence (see harness/props/C20.py).
 
-   relay <a|e|l|f> <ev>...  relay machine from `initListener` (variant: as is / EOF repair / early-loss repair /
-                            both); events
+   relay <a|e|l|f|g> <ev>... relay machine from `initListener` (variant: as is / EOF repair / early-loss repair /
+                            both / both and the repair of the open that raises another exception); events
                               ds<hex> dc<hex> (data sock/chan)  es ec (eof)  ls lc (lost)  ps pc (pause_writing)
-                              rs rc (resume_writing)  ok (confirm)  fail
+                              rs rc (resume_writing)  ok (confirm)  fail  crash (the open raises something other
+                              than ChannelOpenError: `crashStep`)
+   destopen <a|f> <0|1> <ev>...  destination side (`destOpen`, before / after the repair; SSH connection lost /
+                            still there when the connect completes), then relay events as above (variant g);
+                            answer: the calls of the open, then one group per event
+   sockdest <kind> <hosthex> <port>   `sockDest`: the address the socket layer acts on: `<hosthex> <port>`
                             answer: one group per event, groups joined by `|`; a group is `L`/`I` (legal/illegal
                             in the model) followed by the calls: w<s|c><hex> e<s|c> x<s|c> p<s|c> r<s|c>
                             k<s|c><0|1> (eof_received return value) A (assertion failure)
@@ -19,8 +24,10 @@ import AsyncsshModel.Gen.C20
                             other permits only / critical options only / no options at all);
                             permitopen `-` or `,`-joined <hosthex>:<port|*>; answer `<verdict> <appAsked>`
    permitopen <valuehex>    `_add_permitopen`: `<hosthex> <port|*>` or `invalid`
-   listen <a|f> <ev>...     listener table: q<hosthex>:<port>:<0|1> (request) c<id> f<id> x<hosthex>:<port> (cancel)
-                            l<id> (listener.close) C (cleanup); answer `table=<ids> listening=<ids> pending=<ids>`
+   listen <a|r|f> <ev>...   listener table (variant: no repair / creation-vs-cleanup race repaired / that and the
+                            duplicate UNIX path repair): q<hosthex>:<port>:<0|1> (request; port `u` = UNIX path)
+                            c<id> f<id> x<hosthex>:<port|u> (cancel) l<id> (listener.close) C (cleanup);
+                            answer `table=<ids> listening=<ids> pending=<ids> legal=<0|1>`
 -/
 open AsyncsshModel AsyncsshModel.Forward
 
@@ -30,6 +37,11 @@ def parseSide : Char → Option Side
   | 's' => some .sock
   | 'c' => some .chan
   | _ => none
+
+/-- an event of the relay machine, or the crash of the open -/
+inductive Tok where
+  | ev (e : Ev)
+  | crash
 
 def parseEv (s : String) : Option Ev :=
   match s.toList with
@@ -58,15 +70,26 @@ def showOut : Out → String
   | .eofRet x k => "k" ++ showSide x ++ (if k then "1" else "0")
   | .assertFail => "A"
 
-def parseVariant (s : String) : Option Variant :=
-  if s == "a" then some .asIs else if s == "f" then some .fixed
-  else if s == "e" then some ⟨true, false⟩ else if s == "l" then some ⟨false, true⟩ else none
+/-- variant of the relay machine and whether the crash repair is present -/
+def parseVariant (s : String) : Option (Variant × Bool) :=
+  if s == "a" then some (.asIs, false) else if s == "f" then some (.fixed, false)
+  else if s == "g" then some (.fixed, true)
+  else if s == "e" then some (⟨true, false⟩, false) else if s == "l" then some (⟨false, true⟩, false) else none
 
-def runRelay (v : Variant) : Relay → List Ev → List String
+def parseTok (s : String) : Option Tok :=
+  if s == "crash" then some .crash else (parseEv s).map .ev
+
+def showGroup (isLegal : Bool) (o : List Out) : String :=
+  (if isLegal then "L" else "I") ++ String.intercalate "" ((o.map showOut).map (" " ++ ·))
+
+def runRelay (v : Variant) (fixCrash : Bool) : Relay → List Tok → List String
   | _, [] => []
-  | r, e :: es =>
+  | r, .ev e :: es =>
     let (r1, o) := step v r e
-    ((if legal r e then "L" else "I") ++ String.intercalate "" ((o.map showOut).map (" " ++ ·))) :: runRelay v r1 es
+    showGroup (legal r e) o :: runRelay v fixCrash r1 es
+  | r, .crash :: es =>
+    let (r1, o) := crashStep fixCrash r
+    showGroup (r.phase == .opening) o :: runRelay v fixCrash r1 es
 
 /-! SOCKS -/
 
@@ -125,8 +148,13 @@ def showInt (i : Int) : String := toString i
 
 def parseKey (h p : String) : Option LKey := do
   let h ← unhex h
-  let p ← p.toNat?
-  pure (h, p)
+  if p == "u" then pure (.unix h) else do
+    let p ← p.toNat?
+    pure (.tcp h p)
+
+def parseLVariant (s : String) : Option LVariant :=
+  if s == "a" then some ⟨false, false⟩ else if s == "r" then some ⟨true, false⟩
+  else if s == "f" then some ⟨true, true⟩ else none
 
 def parseLEv (s : String) : Option LEv :=
   match s.toList with
@@ -150,9 +178,21 @@ def showIds (l : List Nat) : String :=
 def stepLine (_ : Unit) (ws : List String) : Unit × String :=
   let r := match ws with
     | "relay" :: v :: evs =>
-      match parseVariant v, evs.mapM parseEv with
-      | some v, some evs => String.intercalate " | " (runRelay v initListener evs)
+      match parseVariant v, evs.mapM parseTok with
+      | some (v, fc), some evs => String.intercalate " | " (runRelay v fc initListener evs)
       | _, _ => "bad-op"
+    | "destopen" :: fx :: alive :: evs =>
+      match evs.mapM parseTok with
+      | some evs =>
+        let (r, o) := destOpen (fx == "f") (alive == "1")
+        String.intercalate " | " (showGroup true o :: runRelay .fixed true r evs)
+      | none => "bad-op"
+    | ["sockdest", kind, host, port] =>
+      match parseKind kind, unhex host, port.toNat? with
+      | some kind, some host, some port =>
+        let d := sockDest kind { host := host, port := port }
+        hex d.host ++ " " ++ toString d.port
+      | _, _, _ => "bad-op"
     | "socks" :: v :: chunks =>
       match v, chunks.mapM unhex with
       | "a", some cs =>
@@ -183,12 +223,12 @@ def stepLine (_ : Unit) (ws : List String) : Unit × String :=
         | none => "invalid"
       | none => "bad-op"
     | "listen" :: v :: evs =>
-      match evs.mapM parseLEv with
-      | some evs =>
-        let s := lrun (v == "f") {} evs
+      match parseLVariant v, evs.mapM parseLEv with
+      | some v, some evs =>
+        let s := lrun v {} evs
         "table=" ++ showIds (s.table.map (·.2)) ++ " listening=" ++ showIds s.listening
-          ++ " pending=" ++ showIds (s.pending.map (·.1))
-      | none => "bad-op"
+          ++ " pending=" ++ showIds (s.pending.map (·.1)) ++ " legal=" ++ (if llegalRun v {} evs then "1" else "0")
+      | _, _ => "bad-op"
     | _ => "bad-op"
   ((), r)
 
